@@ -60,6 +60,17 @@ fn load_rom(rom_file_name: String) -> Option<emulator::Core> {
     return None;
   }
 
+  // the ROM is mapped at the size its header declares: a shorter file would
+  // fault on the first access past its end
+  let declared_size = header.get_rom_size_bytes() as u64;
+  match rom_file.metadata() {
+    Ok(meta) if meta.len() >= declared_size => (),
+    _ => {
+      println!("ROM file is smaller than the size declared in its header");
+      return None;
+    },
+  }
+
   println!("Loading \"{}\"", header.get_title());
 
   Some(emulator::Core::from_rom_file(&mut rom_file, header))
